@@ -39,3 +39,13 @@ Theorem C12_one_entry_memo_refuted :
     nth_error (run (Some 1%Z) empty_cache h) j = Some idj /\ idi <> idj.
 Proof. exact one_entry_cache_refuted. Qed.
 Print Assumptions C12_one_entry_memo_refuted.
+
+(** ... and so does every bound: with room for k entries, k+1 different classes and then the first again.  The
+    property therefore needs the memo to be unbounded ([C12_memo_is_unbounded] demands no more than it must); the
+    witness history is what the check replays on the implementation when the translator reads a bound *)
+Theorem C12_every_bounded_memo_refuted :
+  forall k : Z, exists h i j n idi idj, nth_error h i = Some n /\ nth_error h j = Some n /\
+    nth_error (run (Some k) empty_cache h) i = Some idi /\
+    nth_error (run (Some k) empty_cache h) j = Some idj /\ idi <> idj.
+Proof. exact bounded_cache_refuted. Qed.
+Print Assumptions C12_every_bounded_memo_refuted.
